@@ -259,4 +259,9 @@ impl ServerStats for PerClientStats {
         self.clients.clear();
         self.num_overflows = 0;
     }
+
+    #[cfg(roughenough_verif)]
+    fn verif_num_overflows(&self) -> u64 {
+        self.num_overflows
+    }
 }
